@@ -22,7 +22,7 @@ import numpy as np
 from ..common import QNAN, execute_cases, ints, qs
 
 METHODS = ["stacked", "max_score", "min_score", "avg_score"]
-FLAVOURS = ["normal", "ternary", "noisyperm", "dupcol"]
+FLAVOURS = ["normal", "ternary", "noisyperm", "dupcol", "scaled"]
 LEVFL = ["normal", "lowrank", "f32", "int"]
 S6 = 10**6
 S8 = 10**8
@@ -38,20 +38,23 @@ def _rng(seed, *key):
     return np.random.default_rng([int(seed) & 0x7FFFFFFF] + [int(k) & 0x7FFFFFFF for k in key])
 
 
-def _cong_records(A, B, M):
+def _cong_records(A, B, M, swaps=(False,)):
+    """A, B: lists of float matrices.  swap=True: B (the rescaled set) is passed as matrix1."""
     from tensorly.metrics.factors import congruence_coefficient
     import tensorly as tl
     out = []
     forms = ["list", "bare"] if M == 1 else ["list"]
-    for abs_ in (True, False):
-        for form in forms:
-            a = tl.tensor(A[0].copy()) if form == "bare" else [tl.tensor(m.copy()) for m in A]
-            b = tl.tensor(B[0].copy()) if form == "bare" else [tl.tensor(m.copy()) for m in B]
-            try:
-                val, perm = congruence_coefficient(a, b, absolute_value=abs_)
-                out.append({"abs": abs_, "form": form, "raised": False, "val": qi(val, S6), "perm": [int(x) for x in perm]})
-            except Exception as ex:
-                out.append({"abs": abs_, "form": form, "raised": True, "exc": type(ex).__name__, "val": QNAN, "perm": []})
+    for swap in swaps:
+        P, Q = (B, A) if swap else (A, B)
+        for abs_ in (True, False):
+            for form in forms:
+                a = tl.tensor(P[0].copy()) if form == "bare" else [tl.tensor(m.copy()) for m in P]
+                b = tl.tensor(Q[0].copy()) if form == "bare" else [tl.tensor(m.copy()) for m in Q]
+                try:
+                    val, perm = congruence_coefficient(a, b, absolute_value=abs_)
+                    out.append({"abs": abs_, "form": form, "swap": swap, "raised": False, "val": qi(val, S6), "perm": [int(x) for x in perm]})
+                except Exception as ex:
+                    out.append({"abs": abs_, "form": form, "swap": swap, "raised": True, "exc": type(ex).__name__, "val": QNAN, "perm": []})
     return out
 
 
@@ -84,38 +87,58 @@ def exec_exact(case):
     c = case["cfg"]
     R, M = c["R"], c["M"]
     A = [np.array(m, dtype=float) for m in c["A"]]
-    B = [np.array(m, dtype=float) for m in c["B"]]
+    Bint = [np.array(m, dtype=float) for m in c["B"]]
+    mag = [10.0 ** np.array(e, dtype=float) for e in c["mag"]]          # per mode: one magnitude per column
+    magnified = any(v != 0 for e in c["mag"] for v in e)
+    B = [b * g for b, g in zip(Bint, mag)] if magnified else Bint
     w = np.array(c["w"], dtype=float)
-    ev = {"id": case["id"], "kind": "exact", "cfg": c, "cong": _cong_records(A, B, M), "corr": _corr_records(A, B)}
+    if magnified:                                                       # the tensor keeps its size in the weights
+        for g in mag:
+            w = w / g
+    ev = {"id": case["id"], "kind": "exact", "cfg": c, "cong": _cong_records(A, B, M, swaps=(False, True)),
+          "corr": _corr_records(A, B), "corr_swap": _corr_records(B, A)}
     permute = []
+    srcs = {"A": (np.ones(R), A), "B": (w, B)}
 
-    def rec(form, target, fn):
+    def rec(form, ref, target, fn):
+        blank = {"form": form, "ref": ref, "target": target, "raised": True, "perm": [], "exact": True, "factors": [], "weights": [],
+                 "eqf": False, "eqw": False}
         try:
             t, perm = fn()
-            facs, exact = [], True
-            for f in t.factors:
-                rows, ex = _rows(f)
-                facs.append(rows)
+            perm = [int(x) for x in np.asarray(perm).ravel()]
+            sw, sf = srcs[target]
+            ok = len(perm) == R and all(0 <= x < R for x in perm)
+            eqf = ok and all(np.array_equal(np.asarray(f), b[:, perm]) for f, b in zip(t.factors, sf))
+            eqw = ok and np.array_equal(np.asarray(t.weights), sw[perm])
+            facs, exact, wd = [], True, []
+            if not (magnified and target == "B"):
+                for f in t.factors:
+                    rows, ex = _rows(f)
+                    facs.append(rows)
+                    exact = exact and ex
+                wd, ex = ints(t.weights)
                 exact = exact and ex
-            wd, ex = ints(t.weights)
-            permute.append({"form": form, "target": target, "raised": False, "perm": [int(x) for x in np.asarray(perm).ravel()],
-                            "exact": bool(exact and ex), "factors": facs, "weights": wd})
+            permute.append({"form": form, "ref": ref, "target": target, "raised": False, "perm": perm, "exact": bool(exact),
+                            "factors": facs, "weights": wd, "eqf": bool(eqf), "eqw": bool(eqw)})
         except Exception as ex:
-            permute.append({"form": form, "target": target, "raised": True, "exc": type(ex).__name__, "perm": [], "exact": True,
-                            "factors": [], "weights": []})
+            blank["exc"] = type(ex).__name__
+            permute.append(blank)
 
-    def single():
-        t, perms = cp_permute_factors(_cp(np.ones(R), A), _cp(w, B))
-        return t, perms[0]
-    rec("single", "B", single)
+    def single(ref, target):
+        def fn():
+            t, perms = cp_permute_factors(_cp(*srcs[ref]), _cp(*srcs[target]))
+            return t, perms[0]
+        return fn
+    rec("single", "A", "B", single("A", "B"))
+    rec("single", "B", "A", single("B", "A"))
     try:
-        ts, perms = cp_permute_factors(_cp(np.ones(R), A), [_cp(w, B), _cp(np.ones(R), A)])
-        rec("list", "B", lambda: (ts[0], perms[0]))
-        rec("list", "A", lambda: (ts[1], perms[1]))
+        ts, perms = cp_permute_factors(_cp(*srcs["A"]), [_cp(*srcs["B"]), _cp(*srcs["A"])])
+        rec("list", "A", "B", lambda: (ts[0], perms[0]))
+        rec("list", "A", "A", lambda: (ts[1], perms[1]))
     except Exception as ex:
         for tg in ("B", "A"):
-            permute.append({"form": "list", "target": tg, "raised": True, "exc": type(ex).__name__, "perm": [], "exact": True,
-                            "factors": [], "weights": []})
+            permute.append({"form": "list", "ref": "A", "target": tg, "raised": True, "exc": type(ex).__name__, "perm": [], "exact": True,
+                            "factors": [], "weights": [], "eqf": False, "eqw": False})
     ev["permute"] = permute
     return ev
 
@@ -148,6 +171,8 @@ def draw_generic(c, seed):
             b = rng.standard_normal((n, R))
             if fl == "noisyperm":
                 b = a[:, p] * rng.choice([-2.0, -1.0, 0.5, 3.0], size=R) + 0.05 * b
+            elif fl == "scaled":        # exact permuted copy, magnitudes over many orders
+                b = a[:, p] * rng.choice([-1e-4, 1e-3, 1e-6, -1e3, 2e-5, 1e-9], size=R)
             elif fl == "dupcol" and R >= 2:
                 b[:, 1] = b[:, 0]
                 a[:, R - 1] = -2.0 * a[:, 0]
@@ -279,7 +304,7 @@ def run(chk, opts):
         count[c["kind"]] = count.get(c["kind"], 0) + 1
     chk.notes["domain"] = count
     chk.rule = ("every configuration of Matching.tla's domain (exported from TLC's design run): %s. exact = all R! column permutations for R<=%d (the 2R "
-                "dihedral ones for R=%d) x 4 rescaling patterns x equivalent/different base sets x 1-3 modes; generic (R<=%d, all R! matchings brute-forced "
+                "dihedral ones for R=%d) x 8 rescaling patterns (4 integer, 4 with floating-point magnitudes 1e-9..1e5 on the second set) x equivalent/different base sets x 1-3 modes, both argument roles; generic (R<=%d, all R! matchings brute-forced "
                 "in TLC) / metric / lev data drawn from VERIF_SEED; distinct = distinct configurations"
                 % (", ".join("%s=%d" % kv for kv in sorted(count.items())), 5 if thorough else 4, 6 if thorough else 5, 6 if thorough else 5))
     byid = {}
